@@ -119,6 +119,13 @@ fn main() {
             corpus: None,
             describe: true,
         };
+        {
+            // the same fault provocation the case gets inside a shard
+            let mut pr = Rng::for_case(seed ^ 0xfa17, prop.num, sno as u32, idx);
+            if pr.chance(1, 16) {
+                vp_harness::exec::provoke_failures(&mut pr);
+            }
+        }
         (prop.run)(&mut ctx);
         let j = rep.to_json(vec![]);
         println!("{}", j.to_string());
